@@ -3,6 +3,7 @@ package actionlint
 import (
 	"encoding/json"
 	"fmt"
+	"sort"
 	"strconv"
 	"strings"
 )
@@ -821,7 +822,12 @@ func (sema *ExprSemanticsChecker) checkBuiltinFuncCall(n *FuncCallNode, sig *Fun
 			delete(holders, i) // forget it to check unused placeholders
 		}
 
+		rest := make([]int, 0, len(holders))
 		for i := range holders {
+			rest = append(rest, i)
+		}
+		sort.Ints(rest) // Report in the order of the placeholders. The iteration order of map is random
+		for _, i := range rest {
 			sema.errorf(n, "format string %q contains placeholder {%d} but only %d arguments are given to format", lit.Value, i, l)
 		}
 	case "fromjson":
